@@ -4,6 +4,7 @@ T7a  spatial.tile_pixel_matrix                   -> Gen.tilesPerAxisCeil     (in
 T7b  spatial.compute_tile_positions_per_frame    -> Gen.tilesPerAxisFloor    ((n - 1) // t + 1 per axis)
 T7c  utils.compute_plane_position_tiled_full     -> Gen.planePositionOffsets (guard, 0-based offsets, 1-based position)
 T7d  utils.are_plane_positions_tiled_full        -> Gen.tfInit, Gen.tfMaxStep, Gen.tfRanges, Gen.tfMatchStep
+T7e  spatial.iter_tiled_full_frame_data          -> Gen.tiledFullZOffset     (z origin of a focal plane; loop nest pinned)
 """
 from __future__ import annotations
 
@@ -147,9 +148,36 @@ def _fnlike(stmts):
     return ast.FunctionDef(name='are_plane_positions_tiled_full (top level)', args=None, body=stmts, decorator_list=[])
 
 
+def build_T7e(tree):
+    """`iter_tiled_full_frame_data`: z offset of a focal plane; the loop nest, the channel lists, the call of
+    compute_tile_positions_per_frame and the yielded tuple are pinned textually"""
+    fn = find_func(tree, 'iter_tiled_full_frame_data')
+    stmts = assigns_to(fn, ['z_offset'])
+    if len(stmts) != 1:
+        raise Unsupported('iter_tiled_full_frame_data: z_offset is no longer assigned exactly once')
+    body = strip_doc(fn.body)
+    txt = ''.join(_norm(s) for s in body)
+    for needle in ("channels=[None]", "channels=range(1,len(dataset.SegmentSequence)+1)", "channels=range(1,num_optical_paths+1)",
+                   "num_focal_planes=getattr(dataset,'TotalPixelMatrixFocalPlanes',1)",
+                   "spacing_between_slices=float(getattr(pixel_measures,'SpacingBetweenSlices',1.0))",
+                   "forchannelinchannels:forslice_indexinrange(1,num_focal_planes+1):",
+                   "foroffsets,coordsincompute_tile_positions_per_frame(rows=dataset.Rows,columns=dataset.Columns,"
+                   "total_pixel_matrix_rows=dataset.TotalPixelMatrixRows,total_pixel_matrix_columns=dataset.TotalPixelMatrixColumns,"
+                   "total_pixel_matrix_image_position=(x_offset,y_offset,z_offset),image_orientation=image_orientation,"
+                   "pixel_spacing=pixel_spacing):",
+                   "yield(channel,slice_index,int(offsets[0]),int(offsets[1]),float(coords[0]),float(coords[1]),float(coords[2]))"):
+        if needle not in txt:
+            raise Unsupported('iter_tiled_full_frame_data changed (missing ' + needle[:60] + ')')
+    block = _fresh(stmts + [ast.parse('return z_offset').body[0]])
+    text = translate_block(block, 'tiledFullZOffset', [('slice_index', 'int'), ('spacing_between_slices', 'rat')], {},
+                           doc='`spatial.iter_tiled_full_frame_data`: z origin of focal plane `slice_index` (1-based)')
+    return text, span_sha(stmts) + hashlib.sha256(txt.encode()).hexdigest()[:8]
+
+
 TARGETS = {
     'T7a': {'file': 'spatial.py', 'build': build_T7a},
     'T7b': {'file': 'spatial.py', 'build': build_T7b},
     'T7c': {'file': 'utils.py', 'build': build_T7c},
     'T7d': {'file': 'utils.py', 'build': build_T7d},
+    'T7e': {'file': 'spatial.py', 'build': build_T7e},
 }
